@@ -1,0 +1,20 @@
+//go:build verif
+// +build verif
+
+package ast
+
+// Verification hooks (build tag "verif" only): thin exports of the unexported
+// header routine so that every (format, size) pair can be swept without
+// materialising each item. Not part of the public API.
+
+// VerifHeaderBytes returns the format byte and length bytes for a type name
+// ("list", "binary", "boolean", "ascii", "i8", "i1", "i2", "i4", "f8", "f4",
+// "u8", "u1", "u2", "u4") and a number of values.
+func VerifHeaderBytes(typ string, size int) ([]byte, error) {
+	return getHeaderBytes(typ, size)
+}
+
+// VerifDataByteLength returns the payload length in bytes for a type name and a number of values.
+func VerifDataByteLength(typ string, size int) int {
+	return getDataByteLength(typ, size)
+}
